@@ -399,19 +399,19 @@ theorem loopParams_eq : ∀ (state : List Name) (L0 : Locals) {L1 : Locals} {ps 
     obtain ⟨r1, r2⟩ := ih _ h2
     exact ⟨by rw [r1]; rfl, by simp [r2]⟩
 
-theorem loopInits_val (L : Locals) (hA : NoAttrBind L) : ∀ (state : List Name) {inits : List Name}
-    {ns : List Node} {s s' : St}, loopInits L state s = .ok ((inits, ns), s') →
+theorem loopInits_val (L : Locals) : ∀ (state : List Name) {inits : List Name}
+    {ns : List Node} {s s' : St}, FreeOf L state → loopInits L state s = .ok ((inits, ns), s') →
     ns = [] ∧ s' = s ∧ All2 (fun n x => lookup L x = some (.val n)) inits state := by
   intro state
   induction state with
   | nil =>
-    intro inits ns s s' h
+    intro inits ns s s' _ h
     unfold loopInits at h
     obtain ⟨e1, e2⟩ := pure_ok h
     cases e1
     exact ⟨rfl, e2.symm, All2.nil⟩
   | cons x xs ih =>
-    intro inits ns s s' h
+    intro inits ns s s' hA h
     unfold loopInits at h
     mbind h with p s1 h1
     obtain ⟨o, ns1⟩ := p
@@ -426,18 +426,18 @@ theorem loopInits_val (L : Locals) (hA : NoAttrBind L) : ∀ (state : List Name)
     | none => simp only [hl] at h1; exact (failM_ok h1).elim
     | some b =>
       cases b with
-      | attr p ty => exact absurd hl (hA x p ty)
+      | attr p ty => exact absurd hl (hA x List.mem_cons_self p ty)
       | val n =>
         simp only [hl] at h1
         obtain ⟨rfl, rfl, rfl⟩ := toOnnxVar_val h1
-        obtain ⟨r1, r2, r3⟩ := ih h2
+        obtain ⟨r1, r2, r3⟩ := ih (hA.sub (fun y hy => List.mem_cons_of_mem _ hy)) h2
         subst r1; subst r2
         exact ⟨rfl, rfl, All2.cons _ _ _ _ hl r3⟩
 
 theorem loopOutputs_sim (S : Sem V) (fuel : Nat) (hId : ∀ v, S.op "" "Identity" [some v] [] = some [v])
-    {ρ' : Store V} (L2 : Locals) (hA : NoAttrBind L2) :
+    {ρ' : Store V} (L2 : Locals) :
     ∀ (vs : List Name) (sofar : List Node) (outs : List Name) {env : Env V} {s s' : St} {os : List Name}
-      {ns : List Node}, VisOK s.used L2 →
+      {ns : List Node}, VisOK s.used L2 → FreeOf L2 vs →
       (∀ pv, pv ∈ vs → ∀ n, lookup L2 pv = some (.val n) → ∃ v, env n = some v ∧ ρ' pv = some (.t v)) →
       loopOutputs L2 vs sofar outs s = .ok ((os, ns), s') →
       ∃ env', evalNodes S fuel env ns = some env' ∧ Ext env env' s s' ∧ s'.castable = s.castable ∧ Mono s s'
@@ -445,13 +445,14 @@ theorem loopOutputs_sim (S : Sem V) (fuel : Nat) (hId : ∀ v, S.op "" "Identity
   intro vs
   induction vs with
   | nil =>
-    intro sofar outs env s s' os ns _ _ h
+    intro sofar outs env s s' os ns _ _ _ h
     unfold loopOutputs at h
     obtain ⟨e1, e2⟩ := pure_ok h
     cases e1; subst e2
     exact ⟨env, evalNodes_nil _ _ _, Ext.refl _ _, rfl, Mono.refl _, All2.nil⟩
   | cons pv rest ih =>
-    intro sofar outs env s s' os ns hL hf h
+    intro sofar outs env s s' os ns hL hA hf h
+    have hAr : FreeOf L2 rest := hA.sub (fun y hy => List.mem_cons_of_mem _ hy)
     unfold loopOutputs at h
     have restf : ∀ {env1 : Env V} {s1 : St}, Ext env env1 s s1 → Mono s s1 →
         ∀ q, q ∈ rest → ∀ n, lookup L2 q = some (.val n) → ∃ v, env1 n = some v ∧ ρ' q = some (.t v) := by
@@ -466,7 +467,7 @@ theorem loopOutputs_sim (S : Sem V) (fuel : Nat) (hId : ∀ v, S.op "" "Identity
     | none => simp only [hl] at h1; exact (failM_ok h1).elim
     | some b =>
       cases b with
-      | attr p ty => exact absurd hl (hA pv p ty)
+      | attr p ty => exact absurd hl (hA pv List.mem_cons_self p ty)
       | val n =>
         simp only [hl] at h1
         obtain ⟨rfl, rfl, rfl⟩ := toOnnxVar_val h1
@@ -479,7 +480,7 @@ theorem loopOutputs_sim (S : Sem V) (fuel : Nat) (hId : ∀ v, S.op "" "Identity
           try dsimp only at h
           obtain ⟨e1, e2⟩ := pure_ok h
           cases e1; subst e2
-          obtain ⟨env3, ev3, x3, hc3, m3, a3⟩ := ih _ _ hL (restf (Ext.refl _ _) (Mono.refl _)) h2
+          obtain ⟨env3, ev3, x3, hc3, m3, a3⟩ := ih _ _ hL hAr (restf (Ext.refl _ _) (Mono.refl _)) h2
           refine ⟨env3, by simpa using ev3, x3, hc3, m3, ?_⟩
           exact All2.cons _ _ _ _ ⟨v, by rw [x3.envSame _ hnu]; exact hn, hρ⟩ a3
         · rw [if_neg hin] at h
@@ -493,7 +494,7 @@ theorem loopOutputs_sim (S : Sem V) (fuel : Nat) (hId : ∀ v, S.op "" "Identity
           cases e1; subst e2
           obtain ⟨ev2, x2, hu2, m2⟩ := emitCopy_sim S fuel hId hn h2
           have hc2 := emitCopy_castable h2
-          obtain ⟨env3, ev3, x3, hc3, m3, a3⟩ := ih _ _ (hL.mono m2) (restf x2 m2) h3
+          obtain ⟨env3, ev3, x3, hc3, m3, a3⟩ := ih _ _ (hL.mono m2) hAr (restf x2 m2) h3
           refine ⟨env3, by simpa using evalNodes_seq ev2 ev3, x2.trans m2 x3, by rw [hc3, hc2], m2.trans m3, ?_⟩
           exact All2.cons _ _ _ _ ⟨v, by rw [x3.envSame _ hu2]; exact Env.set_same _ _ _, hρ⟩ a3
 
@@ -663,7 +664,8 @@ structure BodyFacts (S : Sem V) (fuel : Nat) (body : List Stmt) (F : VSet) : Pro
   run : ∀ {ρ : Store V} {o : Outcome V}, AllT ρ → evalBlock S fuel body ρ = some o →
     ∃ ρ1, o = .normal ρ1 ∧ RunOK ρ ρ1 (assignedBlock body)
   sim : ∀ {L L' : Locals} {ρ ρ1 : Store V} {env : Env V} {s s' : St} {ns : List Node},
-    Inv S (liveInBlock body F) ρ L env s → evalBlock S fuel body ρ = some (.normal ρ1) →
+    FreeOf L (targetsBlock body) → Inv S (liveInBlock body F) ρ L env s →
+    evalBlock S fuel body ρ = some (.normal ρ1) →
     convStmts L body F s = .ok ((L', ns), s') →
     ∃ env', EvFrom S env ns env' ∧ Inv S F ρ1 L' env' s' ∧ Ext env env' s s' ∧ Mono s s'
   cast : ∀ {L L' : Locals} {ns : List Node} {s s' : St}, convStmts L body F s = .ok ((L', ns), s') → CastOK s s'
@@ -761,8 +763,8 @@ theorem bodyFacts_of_ifBlock (S : Sem V) (fuel : Nat) (hConst : ∀ l, ∃ c, co
     (hId : ∀ v, S.op "" "Identity" [some v] [] = some [v]) {body : List Stmt} (F : VSet)
     (h : ifBlock body = true) : BodyFacts S fuel body F where
   run := fun hρ he => ifBlock_run S fuel body h hρ he
-  sim := fun hinv he hc => by
-    obtain ⟨env', ev, inv, x, m⟩ := block_step S fuel hConst hId body F h hinv he hc
+  sim := fun hfree hinv he hc => by
+    obtain ⟨env', ev, inv, x, m⟩ := block_step S fuel hConst hId body F h hfree hinv he hc
     exact ⟨env', EvFrom.of_eval ev, inv, x, m⟩
   cast := fun hc => ifBlock_cast _ body F h hc
   nobrk := by
@@ -792,9 +794,10 @@ theorem for_step (S : Sem V) (fuel : Nat) (hConst : ∀ l, ∃ c, constOf S l = 
     (hId : ∀ v, S.op "" "Identity" [some v] [] = some [v]) (hT : S.truth (S.ofBool true) = some true)
     {i : Name} {b : Expr} {body : List Stmt} {lo d : VSet} {ρ ρ' : Store V} {L L' : Locals} {env : Env V}
     {s s' : St} {ns : List Node}
-    (hb : tensorRhs b = true) (hB : BodyFacts S fuel body (loopBodyLo (.for_ i true b body) lo))
+    (hNat : ∀ k c, constOf S (.int k) = some c → S.natOf c = some k.toNat)
+    (hB : BodyFacts S fuel body (loopBodyLo (.for_ i true b body) lo))
     (hd : assignedBlock body = some d)
-    (hid : i ∉ d)
+    (hid : i ∉ d) (hfree : FreeOf L (targetsBlock body))
     (hF : ForLiveE i body lo (loopBodyLo (.for_ i true b body) lo))
     (hinv : Inv S (liveInStmt (.for_ i true b body) lo) ρ L env s)
     (he : evalStmt S fuel (.for_ i true b body) ρ = some (.normal ρ'))
@@ -811,9 +814,8 @@ theorem for_step (S : Sem V) (fuel : Nat) (hConst : ∀ l, ∃ c, constOf S l = 
   cases hbe : evalExpr S ρ b with
   | none => simp [hbe] at he
   | some bv =>
-    obtain ⟨bvv, rfl⟩ := tensorRhs_result hinv.allT hb hbe
-    simp only [hbe, natPV] at he
-    cases hn : S.natOf bvv with
+    simp only [hbe] at he
+    cases hn : natPV S bv with
     | none => simp [hn] at he
     | some n =>
       simp only [hn] at he
@@ -871,7 +873,17 @@ theorem for_step (S : Sem V) (fuel : Nat) (hConst : ∀ l, ∃ c, constOf S l = 
         mbind h5 with outs s6 h5d
         obtain ⟨q1, q2⟩ := pure_ok h5
         cases q1; subst q2
-        obtain ⟨rfl, rfl, hinits⟩ := loopInits_val L hinv.noattr state h5c
+        have hfreeS : FreeOf L state := by
+          intro x hx
+          have hxd : x ∈ d := by
+            have hs' := hs
+            unfold loopState at hs'
+            rw [hd] at hs'
+            simp only at hs'
+            cases hs'
+            exact (mem_vinter.mp hx).1
+          exact hfree x (assignedBlock_sub_targets body hd x hxd)
+        obtain ⟨rfl, rfl, hinits⟩ := loopInits_val L state hfreeS h5c
         -- the state variables
         have hstate : ∀ x, x ∈ state ↔ x ∈ d ∧ (x ∈ exposedBlock body [] ∨ x ∈ lo) := by
           intro x
@@ -894,16 +906,34 @@ theorem for_step (S : Sem V) (fuel : Nat) (hConst : ∀ l, ∃ c, constOf S l = 
         -- bound expression
         have hLb : ∀ y, y ∈ usedVars b → y ∈ liveInStmt (.for_ i true b body) lo := by
           intro y hy; rw [hLin]; exact mem_vunion.mpr (Or.inr hy)
-        have hbe' : evalExpr S (restrict ρ (liveInStmt (.for_ i true b body) lo)) b = some (.t bvv) := by
+        have hbe' : evalExpr S (restrict ρ (liveInStmt (.for_ i true b body) lo)) b = some bv := by
           rw [evalExpr_restrict S ρ _ b hLb]; exact hbe
         obtain ⟨env1, ev1, r1, x1, c1⟩ :=
           convExpr_sim S fuel hConst _ L hinv.noattr b _ hinv.vis hinv.rel hinv.cast hbe' h1
+        -- the trip count: a tensor, or the constant of an integer literal
+        obtain ⟨bvv, hob, hnc⟩ : ∃ c, env1 ob = some c ∧ S.natOf c = some n := by
+          cases bv with
+          | t v => exact ⟨v, r1.1, hn⟩
+          | py l =>
+            obtain ⟨⟨c, hc, hev⟩, _⟩ := r1
+            cases l with
+            | int k =>
+              simp only [natPV] at hn
+              cases hn
+              exact ⟨c, hev, hNat k c hc⟩
+            | flt _ _ => simp [natPV] at hn
+            | bool _ => simp [natPV] at hn
+            | ints _ => simp [natPV] at hn
         have k1 := convExpr_cast L b _ h1
         -- fresh names of the body inputs
         obtain ⟨hcfresh, hcused, hccast⟩ := genUnique_spec h2
         have k2 := genUnique_cast h2
         obtain ⟨hL1eq, hpslen, hc3, k3⟩ := loopEnter_parts h3
         simp only [loopScope, if_true] at hL1eq
+        have hAM1 : AttrMono L L1 := by
+          rw [hL1eq]
+          exact (AttrMono.push L).trans ((AttrMono.bindVal _ i iv).trans (AttrMono.bindVals state ps _))
+        have hAM2 : AttrMono L L2 := hAM1.trans (convStmts_attrMono _ _ _ h4)
         obtain ⟨m3, f3⟩ := loopEnter_fresh h3
         have hps_nodup : ps.Nodup := (List.nodup_cons.mp f3.1).2
         have hiv_ps : iv ∉ ps := (List.nodup_cons.mp f3.1).1
@@ -1027,7 +1057,7 @@ theorem for_step (S : Sem V) (fuel : Nat) (hConst : ∀ l, ∃ c, constOf S l = 
               obtain ⟨ρ1, rfl, run1⟩ := hB.run (hal.allT.set i (S.ofNat k)) hbk
               simp only [hbk] at hit
               have invk := mkInv k (S.ofBool true) st ρk hal hR
-              obtain ⟨envB, ⟨G1, evB⟩, invB, xB, mB⟩ := hB.sim invk hbk h4
+              obtain ⟨envB, ⟨G1, evB⟩, invB, xB, mB⟩ := hB.sim (hfree.mono hAM1) invk hbk h4
               -- the condition output
               have hcondB : envB condIn = some (S.ofBool true) := by
                 rw [xB.envSame condIn hcondIn3, envSetMany_cons, envSetMany_cons,
@@ -1055,7 +1085,7 @@ theorem for_step (S : Sem V) (fuel : Nat) (hConst : ∀ l, ∃ c, constOf S l = 
                   cases hl'
                   exact ⟨v, hr.1, rfl⟩
               obtain ⟨envD, evD0, xD, _, mD, aD⟩ :=
-                loopOutputs_sim S 0 hId L2 invC.noattr state (bn ++ [cnode]) [condOut] invC.vis hfO h5b
+                loopOutputs_sim S 0 hId L2 state (bn ++ [cnode]) [condOut] invC.vis (hfreeS.mono hAM2) hfO h5b
               have evD : ∀ G, evalNodes S G (envB.set condOut (S.ofBool true)) ns3 = some envD :=
                 fun G => evalNodes_mono S ns3 0 G _ _ (Nat.zero_le G) evD0
               obtain ⟨rs, hrs, hallD⟩ := outs_values aD
@@ -1121,7 +1151,7 @@ theorem for_step (S : Sem V) (fuel : Nat) (hConst : ∀ l, ∃ c, constOf S l = 
         have evLoop : evalNodes S (GG + 1) env1
             [Node.loop (some ob) none inits outs (iv :: condIn :: ps) (bn ++ cnode :: ns3) (condOut :: os)]
             = some (env1.setMany outs stf) := by
-          simp [evalNodes, evalNode, Env.getOpt, r1.1, Env.getMany, hst0, loopResult, loopTrip, hn,
+          simp [evalNodes, evalNode, Env.getOpt, hob, Env.getMany, hst0, loopResult, loopTrip, hnc,
             loopCond0, hloop, hlen]
         have hnotin : ∀ m, m ∈ s.used → m ∉ outs := fun m hm hmo =>
           (f6.2 m hmo).1 ((k03.trans (k4.trans (k4a.trans (loopOutputs_cast _ _ _ _ h5b)))).mono m hm)
@@ -1189,6 +1219,12 @@ theorem assigned_brk : ∀ (pre : List Stmt) (t : Name), assignedBlock (pre ++ b
   induction pre with
   | nil => simp [brkTail, assignedBlock, assignedStmt, vunion]
   | cons st ss ih => simp only [List.cons_append, assignedBlock, ih]
+
+theorem targets_brk : ∀ (pre : List Stmt) (t : Name), targetsBlock (pre ++ brkTail t) = targetsBlock pre := by
+  intro pre t
+  induction pre with
+  | nil => simp [brkTail, targetsBlock, targetsStmt]
+  | cons st ss ih => simp only [List.cons_append, targetsBlock, ih]
 
 theorem live_rel_brk {pre : List Stmt} {t : Name} (hp : ifBlock pre = true) {X : VSet} {y : Name}
     (h : y ∈ liveInBlock (pre ++ brkTail t) X) : y ∈ liveInBlock (pre ++ brkTail t) [] ∨ y ∈ X := by
@@ -1355,8 +1391,8 @@ theorem forB_step (S : Sem V) (fuel : Nat) (hConst : ∀ l, ∃ c, constOf S l =
     (hNot : ∀ v bk, S.truth v = some bk → ∃ w, S.op "" "Not" [some v] [] = some [w] ∧ S.truth w = some (!bk))
     {i : Name} {b : Expr} {pre body : List Stmt} {t : Name} {lo d : VSet} {ρ ρ' : Store V} {L L' : Locals}
     {env : Env V} {s s' : St} {ns : List Node} (hbd : body = pre ++ brkTail t)
-    (hb : tensorRhs b = true) (hp : ifBlock pre = true) (hd : assignedBlock pre = some d)
-    (hid : i ∉ d)
+    (hNat : ∀ k c, constOf S (.int k) = some c → S.natOf c = some k.toNat) (hp : ifBlock pre = true) (hd : assignedBlock pre = some d)
+    (hid : i ∉ d) (hfree : FreeOf L (targetsBlock pre))
     (hF : ForLive i body lo (loopBodyLo (.for_ i true b body) lo))
     (hinv : Inv S (liveInStmt (.for_ i true b body) lo) ρ L env s)
     (he : evalStmt S fuel (.for_ i true b body) ρ = some (.normal ρ'))
@@ -1382,9 +1418,8 @@ theorem forB_step (S : Sem V) (fuel : Nat) (hConst : ∀ l, ∃ c, constOf S l =
   cases hbe : evalExpr S ρ b with
   | none => simp [hbe] at he
   | some bv =>
-    obtain ⟨bvv, rfl⟩ := tensorRhs_result hinv.allT hb hbe
-    simp only [hbe, natPV] at he
-    cases hn : S.natOf bvv with
+    simp only [hbe] at he
+    cases hn : natPV S bv with
     | none => simp [hn] at he
     | some n =>
       simp only [hn] at he
@@ -1443,7 +1478,17 @@ theorem forB_step (S : Sem V) (fuel : Nat) (hConst : ∀ l, ∃ c, constOf S l =
         mbind h5 with outs s6 h5d
         obtain ⟨q1, q2⟩ := pure_ok h5
         cases q1; subst q2
-        obtain ⟨rfl, rfl, hinits⟩ := loopInits_val L hinv.noattr state h5c
+        have hfreeS : FreeOf L state := by
+          intro x hx
+          have hxd : x ∈ d := by
+            have hs' := hs
+            unfold loopState at hs'
+            rw [hdb] at hs'
+            simp only at hs'
+            cases hs'
+            exact (mem_vinter.mp hx).1
+          exact hfree x (assignedBlock_sub_targets pre hd x hxd)
+        obtain ⟨rfl, rfl, hinits⟩ := loopInits_val L state hfreeS h5c
         -- the state variables
         have hstate : ∀ x, x ∈ state ↔ x ∈ d ∧ (x ∈ liveInBlock body [] ∨ x ∈ lo) := by
           intro x
@@ -1467,16 +1512,34 @@ theorem forB_step (S : Sem V) (fuel : Nat) (hConst : ∀ l, ∃ c, constOf S l =
         -- bound expression
         have hLb : ∀ y, y ∈ usedVars b → y ∈ liveInStmt (.for_ i true b body) lo := by
           intro y hy; rw [hLin]; exact mem_vunion.mpr (Or.inr hy)
-        have hbe' : evalExpr S (restrict ρ (liveInStmt (.for_ i true b body) lo)) b = some (.t bvv) := by
+        have hbe' : evalExpr S (restrict ρ (liveInStmt (.for_ i true b body) lo)) b = some bv := by
           rw [evalExpr_restrict S ρ _ b hLb]; exact hbe
         obtain ⟨env1, ev1, r1, x1, c1⟩ :=
           convExpr_sim S fuel hConst _ L hinv.noattr b _ hinv.vis hinv.rel hinv.cast hbe' h1
+        -- the trip count: a tensor, or the constant of an integer literal
+        obtain ⟨bvv, hob, hnc⟩ : ∃ c, env1 ob = some c ∧ S.natOf c = some n := by
+          cases bv with
+          | t v => exact ⟨v, r1.1, hn⟩
+          | py l =>
+            obtain ⟨⟨c, hc, hev⟩, _⟩ := r1
+            cases l with
+            | int k =>
+              simp only [natPV] at hn
+              cases hn
+              exact ⟨c, hev, hNat k c hc⟩
+            | flt _ _ => simp [natPV] at hn
+            | bool _ => simp [natPV] at hn
+            | ints _ => simp [natPV] at hn
         have k1 := convExpr_cast L b _ h1
         -- fresh names of the body inputs
         obtain ⟨hcfresh, hcused, hccast⟩ := genUnique_spec h2
         have k2 := genUnique_cast h2
         obtain ⟨hL1eq, hpslen, hc3, k3⟩ := loopEnter_parts h3
         simp only [loopScope, if_true] at hL1eq
+        have hAM1 : AttrMono L L1 := by
+          rw [hL1eq]
+          exact (AttrMono.push L).trans ((AttrMono.bindVal _ i iv).trans (AttrMono.bindVals state ps _))
+        have hAM2 : AttrMono L L2 := hAM1.trans (convStmts_attrMono _ _ _ h4)
         obtain ⟨m3, f3⟩ := loopEnter_fresh h3
         have hps_nodup : ps.Nodup := (List.nodup_cons.mp f3.1).2
         have hiv_ps : iv ∉ ps := (List.nodup_cons.mp f3.1).1
@@ -1603,7 +1666,7 @@ theorem forB_step (S : Sem V) (fuel : Nat) (hConst : ∀ l, ∃ c, constOf S l =
               have invk := mkInv k cnd st ρk hal hR
               rw [hlive F] at invk
               obtain ⟨envB, evB, invB, xB, mB⟩ :=
-                block_step S fuel hConst hId pre (vunion F [t]) hp invk hpre h4
+                block_step S fuel hConst hId pre (vunion F [t]) hp (hfree.mono hAM1) invk hpre h4
               have evBG := evalNodes_mono S bn fuel G _ _ hG evB
               -- the break condition and the condition output
               obtain ⟨m', hl', hr'⟩ := invB.rel t _ (restrict_some.mpr ⟨htF, ht⟩)
@@ -1631,7 +1694,7 @@ theorem forB_step (S : Sem V) (fuel : Nat) (hConst : ∀ l, ∃ c, constOf S l =
                   cases hl2
                   exact ⟨v', hr2.1, rfl⟩
               obtain ⟨envD, evD, xD, _, mD, aD⟩ :=
-                loopOutputs_sim S G hId L2 invC.noattr state (bn ++ [cnode]) [condOut] invC.vis hfO h5b
+                loopOutputs_sim S G hId L2 state (bn ++ [cnode]) [condOut] invC.vis (hfreeS.mono hAM2) hfO h5b
               obtain ⟨rs, hrs, hallD⟩ := outs_values aD
               have hcoD : envD condOut = some w := by
                 rw [xD.envSame condOut (by rw [houused]; exact List.mem_cons_self)]
@@ -1711,7 +1774,7 @@ theorem forB_step (S : Sem V) (fuel : Nat) (hConst : ∀ l, ∃ c, constOf S l =
         have evLoop : evalNodes S (max fuel (n + 1) + 1) env1
             [Node.loop (some ob) none inits outs (iv :: condIn :: ps) (bn ++ cnode :: ns3) (condOut :: os)]
             = some (env1.setMany outs stf) := by
-          simp [evalNodes, evalNode, Env.getOpt, r1.1, Env.getMany, hst0, loopResult, loopTrip, hn,
+          simp [evalNodes, evalNode, Env.getOpt, hob, Env.getMany, hst0, loopResult, loopTrip, hnc,
             loopCond0, hloop, hlen]
         have hnotin : ∀ m, m ∈ s.used → m ∉ outs := fun m hm hmo =>
           (f6.2 m hmo).1 ((k03.trans (k4.trans (k4a.trans (loopOutputs_cast _ _ _ _ h5b)))).mono m hm)
@@ -1842,7 +1905,7 @@ theorem while_core (S : Sem V) (fuel : Nat) (hConst : ∀ l, ∃ c, constOf S l 
     {ilName : Name}
     (hB : BodyFacts S fuel body F) (hd : assignedBlock body = some d) (hs : loopState body lo = some state)
     (hW : WhileLiveE t body lo F)
-    (hside : t ∈ state ∨ t ∉ liveInBlock body F)
+    (hside : t ∈ state ∨ t ∉ liveInBlock body F) (hfree : FreeOf L (targetsBlock body))
     (hinv : Inv S F ρ L env s)
     (he : iterWhile (fun r => match r t with | some v => truthPV S v | none => none)
       (fun r => evalBlock S fuel body r) fuel ρ = some (.normal ρ'))
@@ -1862,7 +1925,17 @@ theorem while_core (S : Sem V) (fuel : Nat) (hConst : ∀ l, ∃ c, constOf S l 
   | none => simp only [hlt] at h1; exact (failM_ok h1).elim
   | some bnd =>
     cases bnd with
-    | attr p ty => exact absurd hlt (hinv.noattr t p ty)
+    | attr p ty =>
+      exfalso
+      cases hρt : ρ t with
+      | none =>
+        cases fuel with
+        | zero => simp [iterWhile] at he
+        | succ fl => simp [iterWhile, hρt] at he
+      | some q0 =>
+        obtain ⟨m0, hl0, _⟩ := hinv.rel t q0 (restrict_some.mpr ⟨htF, hρt⟩)
+        rw [hlt] at hl0
+        cases hl0
     | val n0 =>
       simp only [hlt] at h1
       obtain ⟨rfl, rfl, rfl⟩ := toOnnxVar_val h1
@@ -1919,7 +1992,17 @@ theorem while_core (S : Sem V) (fuel : Nat) (hConst : ∀ l, ∃ c, constOf S l 
           mbind h5 with outs s6 h5d
           obtain ⟨q1, q2⟩ := pure_ok h5
           cases q1; subst q2
-          obtain ⟨rfl, rfl, hinits⟩ := loopInits_val L hinv.noattr state h5c
+          have hfreeS : FreeOf L state := by
+            intro x hx
+            have hxd : x ∈ d := by
+              have hs' := hs
+              unfold loopState at hs'
+              rw [hd] at hs'
+              simp only at hs'
+              cases hs'
+              exact (mem_vinter.mp hx).1
+            exact hfree x (assignedBlock_sub_targets body hd x hxd)
+          obtain ⟨rfl, rfl, hinits⟩ := loopInits_val L state hfreeS h5c
           -- the state variables
           have hstate : ∀ x, x ∈ state ↔ x ∈ d ∧ (x ∈ exposedBlock body [] ∨ x ∈ lo) := by
             intro x
@@ -1938,6 +2021,10 @@ theorem while_core (S : Sem V) (fuel : Nat) (hConst : ∀ l, ∃ c, constOf S l 
           -- fresh names of the body inputs
           obtain ⟨hL1eq, hpslen, hc3, k3⟩ := loopEnter_parts h3
           simp only [loopScope, Bool.false_eq_true, if_false] at hL1eq
+          have hAM1 : AttrMono L L1 := by
+            rw [hL1eq]
+            exact (AttrMono.push L).trans (AttrMono.bindVals state ps _)
+          have hAM2 : AttrMono L L2 := hAM1.trans (convStmts_attrMono _ _ _ h4)
           obtain ⟨m3, f3⟩ := loopEnter_fresh h3
           have hps_nodup : ps.Nodup := (List.nodup_cons.mp f3.1).2
           have hiv_ps : iv ∉ ps := (List.nodup_cons.mp f3.1).1
@@ -2050,7 +2137,7 @@ theorem while_core (S : Sem V) (fuel : Nat) (hConst : ∀ l, ∃ c, constOf S l 
                       obtain ⟨ρ1, rfl, run1⟩ := hB.run hal.allT hbk
                       simp only [hbk] at hit
                       have invk := mkInv k cnd st ρk hal hR
-                      obtain ⟨envB, ⟨G1, evB⟩, invB, xB, mB⟩ := hB.sim invk hbk h4
+                      obtain ⟨envB, ⟨G1, evB⟩, invB, xB, mB⟩ := hB.sim (hfree.mono hAM1) invk hbk h4
                       -- the re-computed condition
                       have hl2 := current_lookup hcur
                       have hρ1t : ρ1 t ≠ none := invB.bound t n2 hl2
@@ -2083,7 +2170,7 @@ theorem while_core (S : Sem V) (fuel : Nat) (hConst : ∀ l, ∃ c, constOf S l 
                             cases hlm
                             exact ⟨v', hrm.1, rfl⟩
                         obtain ⟨envD, evD0, xD, _, mD, aD⟩ :=
-                          loopOutputs_sim S 0 hId L2 invC.noattr state (bn ++ [cnode]) [condOut] invC.vis hfO h5b
+                          loopOutputs_sim S 0 hId L2 state (bn ++ [cnode]) [condOut] invC.vis (hfreeS.mono hAM2) hfO h5b
                         have evD : ∀ G, evalNodes S G (envB.set condOut v1) ns3 = some envD :=
                           fun G => evalNodes_mono S ns3 0 G _ _ (Nat.zero_le G) evD0
                         obtain ⟨rs, hrs, hallD⟩ := outs_values aD
@@ -2182,7 +2269,7 @@ theorem whileB_core (S : Sem V) (fuel : Nat) (hConst : ∀ l, ∃ c, constOf S l
     {ilName : Name}
     (hp : ifBlock pre = true) (hd : assignedBlock pre = some d) (hs : loopState body lo = some state)
     (hW : WhileLive t body lo F)
-    (hside : t ∈ state ∨ t ∉ liveInBlock body F)
+    (hside : t ∈ state ∨ t ∉ liveInBlock body F) (hfree : FreeOf L (targetsBlock pre))
     (hinv : Inv S F ρ L env s)
     (he : iterWhile (fun r => match r t with | some v => truthPV S v | none => none)
       (fun r => evalBlock S fuel body r) fuel ρ = some (.normal ρ'))
@@ -2211,7 +2298,17 @@ theorem whileB_core (S : Sem V) (fuel : Nat) (hConst : ∀ l, ∃ c, constOf S l
   | none => simp only [hlt] at h1; exact (failM_ok h1).elim
   | some bnd =>
     cases bnd with
-    | attr p ty => exact absurd hlt (hinv.noattr t p ty)
+    | attr p ty =>
+      exfalso
+      cases hρt : ρ t with
+      | none =>
+        cases fuel with
+        | zero => simp [iterWhile] at he
+        | succ fl => simp [iterWhile, hρt] at he
+      | some q0 =>
+        obtain ⟨m0, hl0, _⟩ := hinv.rel t q0 (restrict_some.mpr ⟨htF, hρt⟩)
+        rw [hlt] at hl0
+        cases hl0
     | val n0 =>
       simp only [hlt] at h1
       obtain ⟨rfl, rfl, rfl⟩ := toOnnxVar_val h1
@@ -2272,7 +2369,17 @@ theorem whileB_core (S : Sem V) (fuel : Nat) (hConst : ∀ l, ∃ c, constOf S l
           mbind h5 with outs s6 h5d
           obtain ⟨q1, q2⟩ := pure_ok h5
           cases q1; subst q2
-          obtain ⟨rfl, rfl, hinits⟩ := loopInits_val L hinv.noattr state h5c
+          have hfreeS : FreeOf L state := by
+            intro x hx
+            have hxd : x ∈ d := by
+              have hs' := hs
+              unfold loopState at hs'
+              rw [hdb] at hs'
+              simp only at hs'
+              cases hs'
+              exact (mem_vinter.mp hx).1
+            exact hfree x (assignedBlock_sub_targets pre hd x hxd)
+          obtain ⟨rfl, rfl, hinits⟩ := loopInits_val L state hfreeS h5c
           -- the state variables
           have hstate : ∀ x, x ∈ state ↔ x ∈ d ∧ (x ∈ liveInBlock body [] ∨ x ∈ lo) := by
             intro x
@@ -2292,6 +2399,10 @@ theorem whileB_core (S : Sem V) (fuel : Nat) (hConst : ∀ l, ∃ c, constOf S l
           -- fresh names of the body inputs
           obtain ⟨hL1eq, hpslen, hc3, k3⟩ := loopEnter_parts h3
           simp only [loopScope, Bool.false_eq_true, if_false] at hL1eq
+          have hAM1 : AttrMono L L1 := by
+            rw [hL1eq]
+            exact (AttrMono.push L).trans (AttrMono.bindVals state ps _)
+          have hAM2 : AttrMono L L2 := hAM1.trans (convStmts_attrMono _ _ _ h4)
           obtain ⟨m3, f3⟩ := loopEnter_fresh h3
           have hps_nodup : ps.Nodup := (List.nodup_cons.mp f3.1).2
           have hiv_ps : iv ∉ ps := (List.nodup_cons.mp f3.1).1
@@ -2413,7 +2524,7 @@ theorem whileB_core (S : Sem V) (fuel : Nat) (hConst : ∀ l, ∃ c, constOf S l
                       have invk := mkInv k cnd st ρk hal hR
                       rw [hlive F] at invk
                       obtain ⟨envB, evB, invB, xB, mB⟩ :=
-                        block_step S fuel hConst hId pre (vunion F [b]) hp invk hpre h4
+                        block_step S fuel hConst hId pre (vunion F [b]) hp (hfree.mono hAM1) invk hpre h4
                       have evBG := evalNodes_mono S bn fuel G _ _ hG evB
                       -- the break condition
                       obtain ⟨mb, hlb, hrb⟩ := invB.rel b _ (restrict_some.mpr ⟨hbF, hbv⟩)
@@ -2468,9 +2579,9 @@ theorem whileB_core (S : Sem V) (fuel : Nat) (hConst : ∀ l, ∃ c, constOf S l
                             cases hlm
                             exact ⟨v', hrm.1, rfl⟩
                         obtain ⟨envD, evD, xD, _, mD, aD⟩ :=
-                          loopOutputs_sim S G hId L2 invC.noattr state
+                          loopOutputs_sim S G hId L2 state
                             (bn ++ [Node.op "" "Not" [some nb] [notb] [], Node.op "" "And" [some n2, some notb] [condOut] []])
-                            [condOut] invC.vis hfO h5b
+                            [condOut] invC.vis (hfreeS.mono hAM2) hfO h5b
                         obtain ⟨rs, hrs, hallD⟩ := outs_values aD
                         have hcoD : envD condOut = some w := by
                           rw [xD.envSame condOut (by rw [houused]; exact List.mem_cons_self)]
@@ -2669,7 +2780,7 @@ theorem splitBrk_eq {body pre : List Stmt} {t : Name} (h : splitBrk body = some 
     | _ => simp [hl] at h
 
 theorem for_run (S : Sem V) (fuel : Nat) {i : Name} {b : Expr} {body : List Stmt}
-    {ρ : Store V} {o : Outcome V} (hb : tensorRhs b = true)
+    {ρ : Store V} {o : Outcome V}
     (hrun : ∀ (n k : Nat) (ρ0 : Store V) (o : Outcome V), AllT ρ0 →
       iterFor S i (fun r => evalBlock S fuel body r) n k ρ0 = some o → ∃ ρ', o = .normal ρ')
     (hρ : AllT ρ)
@@ -2679,9 +2790,8 @@ theorem for_run (S : Sem V) (fuel : Nat) {i : Name} {b : Expr} {body : List Stmt
   cases hbe : evalExpr S ρ b with
   | none => simp [hbe] at he
   | some bv =>
-    obtain ⟨bvv, rfl⟩ := tensorRhs_result hρ hb hbe
-    simp only [hbe, natPV] at he
-    cases hn : S.natOf bvv with
+    simp only [hbe] at he
+    cases hn : natPV S bv with
     | none => simp [hn] at he
     | some n =>
       simp only [hn] at he
@@ -2734,7 +2844,7 @@ theorem whileAt_step (S : Sem V) (fuel : Nat) (hConst : ∀ l, ∃ c, constOf S 
       (yb = false → S.truth w = some false) ∧ (yb = true → S.truth w = S.truth x))
     {t : Name} {body : List Stmt} {lo : VSet} {ρ : Store V} {o : Outcome V} {L L' : Locals} {env : Env V}
     {s s' : St} {ns : List Node}
-    (hok : whileOK t body lo = true)
+    (hok : whileOK t body lo = true) (hfree : FreeOf L (targetsBlock body))
     (hinv : Inv S (liveInStmt (.while_ (.var t) body) lo) ρ L env s)
     (he : evalStmt S fuel (.while_ (.var t) body) ρ = some o)
     (h : convWhileAt L t body lo false s = .ok ((L', ns), s'))
@@ -2791,7 +2901,7 @@ theorem whileAt_step (S : Sem V) (fuel : Nat) (hConst : ∀ l, ∃ c, constOf S 
             obtain ⟨ρ1, ho, r1⟩ := ifBlock_run S fuel body hbody h0 hb
             exact ⟨ρ1, Or.inl ho, r1.allT⟩) fuel hinv.allT he
         obtain ⟨G, env', ev, inv', _⟩ := while_core S fuel hConst hId (bodyFacts_of_ifBlock S fuel hConst hId _ hbody) hd hs
-          (hW.toE (exposed_eq_live_block body [] hbody)) hside' hinv he
+          (hW.toE (exposed_eq_live_block body [] hbody)) hside' hfree hinv he
           h2 h1 h3 h4 h5 hmono hvisF
         exact ⟨ρ1, rfl, G, env', ev, inv'⟩
       · cases hsp : splitBrk body with
@@ -2812,7 +2922,7 @@ theorem whileAt_step (S : Sem V) (fuel : Nat) (hConst : ∀ l, ∃ c, constOf S 
               | true => right; simpa using ho
               | false => left; simpa using ho) fuel hinv.allT he
           obtain ⟨G, env', ev, inv', _⟩ := whileB_core S fuel hConst hId hNot hAnd hbd hbody hdp hs hW hside'
-            hinv he h2 h1 h3 h4 h5 hmono hvisF
+            (by rw [← targets_brk pre b, ← hbd]; exact hfree) hinv he h2 h1 h3 h4 h5 hmono hvisF
           exact ⟨ρ1, rfl, G, env', ev, inv'⟩
 
 theorem convStmt_while (L : Locals) (t : Name) (body : List Stmt) (lo : VSet) :
@@ -2836,17 +2946,19 @@ theorem stateless_while_refused (L : Locals) (t : Name) (body : List Stmt) (lo :
 
 theorem top_step (S : Sem V) (fuel : Nat) (hConst : ∀ l, ∃ c, constOf S l = some c)
     (hId : ∀ v, S.op "" "Identity" [some v] [] = some [v]) (hT : S.truth (S.ofBool true) = some true)
+    (hNat : ∀ k c, constOf S (.int k) = some c → S.natOf c = some k.toNat)
     (hNot : ∀ v bk, S.truth v = some bk → ∃ w, S.op "" "Not" [some v] [] = some [w] ∧ S.truth w = some (!bk))
     (hAnd : ∀ x y yb, S.truth y = some yb → ∃ w, S.op "" "And" [some x, some y] [] = some [w] ∧
       (yb = false → S.truth w = some false) ∧ (yb = true → S.truth w = S.truth x))
     (st : Stmt) (lo : VSet) {ρ : Store V} {o : Outcome V} {L L' : Locals} {env : Env V} {s s' : St}
-    {ns : List Node} (hst : forTopStmt st lo = true) (hinv : Inv S (liveInStmt st lo) ρ L env s)
+    {ns : List Node} (hst : forTopStmt st lo = true) (hfree : FreeOf L (targetsStmt st))
+    (hinv : Inv S (liveInStmt st lo) ρ L env s)
     (he : evalStmt S fuel st ρ = some o) (h : convStmt L st lo s = .ok ((L', ns), s')) :
     ∃ ρ1, o = .normal ρ1 ∧ ∃ G env', evalNodes S G env ns = some env' ∧ Inv S lo ρ1 L' env' s' := by
   by_cases hfor : ∃ i ok b body, st = .for_ i ok b body
   · obtain ⟨i, ok, b, body, rfl⟩ := hfor
     simp only [forTopStmt, forOK, Bool.and_eq_true] at hst
-    obtain ⟨rfl, ⟨⟨hb, hbody⟩, hdd⟩, hstab⟩ := hst
+    obtain ⟨rfl, ⟨hbody, hdd⟩, hstab⟩ := hst
     cases hd : assignedBlock body with
     | none => simp [hd] at hdd
     | some d =>
@@ -2857,11 +2969,12 @@ theorem top_step (S : Sem V) (fuel : Nat) (hConst : ∀ l, ∃ c, constOf S l = 
         rw [hdd] at this; cases this
       unfold loopBodyOK at hbody
       rcases Bool.or_eq_true_iff.mp hbody with hbody | hbody
-      · obtain ⟨ρ1, rfl⟩ := for_run S fuel hb
+      · obtain ⟨ρ1, rfl⟩ := for_run S fuel
           (fun n k ρ0 o h0 hit => by
             obtain ⟨ρ', ho, _⟩ := iterFor_run S fuel i hbody hd n k h0 hit
             exact ⟨ρ', ho⟩) hinv.allT he
-        obtain ⟨G, env', ev, inv', _, _⟩ := for_step S fuel hConst hId hT hb (bodyFacts_of_ifBlock S fuel hConst hId _ hbody) hd hid
+        obtain ⟨G, env', ev, inv', _, _⟩ := for_step S fuel hConst hId hT hNat (bodyFacts_of_ifBlock S fuel hConst hId _ hbody) hd hid
+          (hfree.sub (fun x hx => by simp [targetsStmt, hx]))
           ((forLive_of_stable hbody hstab).toE (exposed_eq_live_block body [] hbody)) hinv he h
         exact ⟨ρ1, rfl, G, env', ev, inv'⟩
       · cases hsp : splitBrk body with
@@ -2871,13 +2984,14 @@ theorem top_step (S : Sem V) (fuel : Nat) (hConst : ∀ l, ∃ c, constOf S l = 
           simp only [hsp] at hbody
           have hbd := splitBrk_eq hsp
           have hdp : assignedBlock pre = some d := by rw [← assigned_brk pre t, ← hbd]; exact hd
-          obtain ⟨ρ1, rfl⟩ := for_run S fuel hb
+          obtain ⟨ρ1, rfl⟩ := for_run S fuel
             (fun n k ρ0 o h0 hit => by
               rw [hbd] at hit
               exact iterForB_run S fuel i hbody n k h0 hit) hinv.allT he
           have hF := forLive_of_stable' (i := i) (ok := true) (b := b) (body := body) (lo := lo)
             (fun X y hy => by rw [hbd] at hy ⊢; exact live_rel_brk hbody hy) hstab
-          obtain ⟨G, env', ev, inv', _, _⟩ := forB_step S fuel hConst hId hT hNot hbd hb hbody hdp hid
+          obtain ⟨G, env', ev, inv', _, _⟩ := forB_step S fuel hConst hId hT hNot hbd hNat hbody hdp hid
+            (by rw [← targets_brk pre t, ← hbd]; exact hfree.sub (fun x hx => by simp [targetsStmt, hx]))
             hF hinv he h
           exact ⟨ρ1, rfl, G, env', ev, inv'⟩
   · by_cases hwh : ∃ t body, st = .while_ (.var t) body
@@ -2886,7 +3000,7 @@ theorem top_step (S : Sem V) (fuel : Nat) (hConst : ∀ l, ∃ c, constOf S l = 
       have hfr := convStmt_fresh L _ lo h
       have hsc := convStmt_scope L _ lo hinv.vis (fun x hx => hx) h
       rw [convStmt_while] at h
-      exact whileAt_step S fuel hConst hId hNot hAnd hst hinv he h hfr.1
+      exact whileAt_step S fuel hConst hId hNot hAnd hst (hfree.sub (fun x hx => by simpa [targetsStmt] using hx)) hinv he h hfr.1
         (hsc.2.mono (fun y hy => after_in_used hfr hy))
     have hif : ifStmt st = true := by
       cases st with
@@ -2897,18 +3011,19 @@ theorem top_step (S : Sem V) (fuel : Nat) (hConst : ∀ l, ∃ c, constOf S l = 
         | _ => simp [forTopStmt, ifStmt] at hst
       | _ => exact hst
     obtain ⟨ρ1, rfl, _⟩ := ifStmt_run S fuel st hif hinv.allT he
-    obtain ⟨env1, ev1, inv1, _, _⟩ := stmt_step S fuel hConst hId st _ hif hinv he h
+    obtain ⟨env1, ev1, inv1, _, _⟩ := stmt_step S fuel hConst hId st _ hif hfree hinv he h
     exact ⟨ρ1, rfl, fuel, env1, ev1, inv1⟩
 
 theorem convTop_for_sim (S : Sem V) (fuel : Nat) (hConst : ∀ l, ∃ c, constOf S l = some c)
     (hId : ∀ v, S.op "" "Identity" [some v] [] = some [v]) (hT : S.truth (S.ofBool true) = some true)
+    (hNat : ∀ k c, constOf S (.int k) = some c → S.natOf c = some k.toNat)
     (hNot : ∀ v bk, S.truth v = some bk → ∃ w, S.op "" "Not" [some v] [] = some [w] ∧ S.truth w = some (!bk))
     (hAnd : ∀ x y yb, S.truth y = some yb → ∃ w, S.op "" "And" [some x, some y] [] = some [w] ∧
       (yb = false → S.truth w = some false) ∧ (yb = true → S.truth w = S.truth x))
     {inputs : List Name} {rc : Option Nat} :
     ∀ (body : List Stmt) (L : Locals) {ρ : Store V} {env : Env V} {s s' : St} {ns : List Node}
       {outs : List Name} {pvs : List (PV V)} {vs : List V},
-      forLine body = true → Inv S (liveInBlock body []) ρ L env s →
+      forLine body = true → FreeOf L (targetsBlock body) → Inv S (liveInBlock body []) ρ L env s →
       evalBlock S fuel body ρ = some (.returned pvs) → pvs.mapM (toTensor S) = some vs →
       convTop inputs rc L body [] s = .ok ((ns, outs), s') →
       ∃ G env', evalNodes S G env ns = some env' ∧ outs.mapM env' = some vs := by
@@ -2916,10 +3031,10 @@ theorem convTop_for_sim (S : Sem V) (fuel : Nat) (hConst : ∀ l, ∃ c, constOf
   induction body with
   | nil => intro L ρ env s s' ns outs pvs vs hi; simp [forLine] at hi
   | cons st ss ih =>
-    intro L ρ env s s' ns outs pvs vs hi hinv he hv h
+    intro L ρ env s s' ns outs pvs vs hi hfree hinv he hv h
     rcases forLine_cons hi with ⟨es, rfl, rfl⟩ | ⟨hst, hss⟩
     · obtain ⟨env', ev, hm⟩ := convTop_if_sim S fuel hConst hId [.ret es false] L (by simp [ifLine])
-        hinv he hv h
+        hfree hinv he hv h
       exact ⟨fuel, env', ev, hm⟩
     · unfold liveInBlock at hinv
       unfold evalBlock at he
@@ -2939,19 +3054,22 @@ theorem convTop_for_sim (S : Sem V) (fuel : Nat) (hConst : ∀ l, ∃ c, constOf
         try dsimp only at h
         obtain ⟨q1, q2⟩ := pure_ok h
         cases q1
-        obtain ⟨ρ1, rfl, G1, env1, ev1, inv1⟩ := top_step S fuel hConst hId hT hNot hAnd st _ hst hinv hs h1
+        obtain ⟨ρ1, rfl, G1, env1, ev1, inv1⟩ :=
+          top_step S fuel hConst hId hT hNat hNot hAnd st _ hst hfree.head.1 hinv hs h1
         simp only [hs] at he
-        obtain ⟨G2, env2, ev2, hm2⟩ := ih L1 hss inv1 he hv h2
+        obtain ⟨G2, env2, ev2, hm2⟩ := ih L1 hss (hfree.head.2.mono (convStmt_attrMono L st _ h1)) inv1 he hv h2
         exact ⟨max G1 G2, env2,
           evalNodes_seq (evalNodes_mono S ns1 G1 _ _ _ (Nat.le_max_left _ _) ev1)
             (evalNodes_mono S _ G2 _ _ _ (Nat.le_max_right _ _) ev2), hm2⟩
 
 /-- The function-level wrapper shared by the refinement theorems: the invariant holds at the head of the body,
 so a simulation of the body (`hsim`) gives the refinement. -/
-theorem convert_correct_via (S : Sem V) {f : Func} {g : Graph} (hten : AllTensorParams f.params)
+theorem convert_correct_via (S : Sem V) {f : Func} {g : Graph}
+    (hattr : ∀ p, p ∈ attrParams f.params → p ∉ targetsBlock f.body)
     (hnames : (f.params.map Param.name).Nodup) (h : convert f = .ok g)
     {fuel : Nat} {args vs : List V} (he : evalFunc S fuel f args = some vs)
     (hsim : ∀ {ρ : Store V} {env : Env V} {s s' : St} {ns : List Node} {outs : List Name} {pvs : List (PV V)},
+      FreeOf [paramFrame f.params] (targetsBlock f.body) →
       Inv S (liveInBlock f.body []) ρ [paramFrame f.params] env s →
       evalBlock S fuel f.body ρ = some (.returned pvs) → pvs.mapM (toTensor S) = some vs →
       convTop (tensorParams f.params) f.retCount [paramFrame f.params] f.body [] s = .ok ((ns, outs), s') →
@@ -2994,7 +3112,7 @@ theorem convert_correct_via (S : Sem V) {f : Func} {g : Graph} (hten : AllTensor
                 (Store.setMany (fun _ => none) (tensorParams f.params) (args.map PV.t))
                 [paramFrame f.params] (Env.setMany (fun _ => none) (tensorParams f.params) args)
                 { used := (tensorParams f.params).reverse, next := 0, castable := [] } := by
-              refine ⟨hL, noAttrBind_params hten, (fun n hn => by cases hn), ?_, ?_, ?_⟩
+              refine ⟨hL, noAttrBind_paramFrame _, (fun n hn => by cases hn), ?_, ?_, ?_⟩
               · intro x pv hx
                 rw [hrelst] at hx
                 cases hev : Env.setMany (fun _ => none) (tensorParams f.params) args x with
@@ -3020,7 +3138,7 @@ theorem convert_correct_via (S : Sem V) {f : Func} {g : Graph} (hten : AllTensor
                 simp only [List.mem_singleton] at hfr
                 subst hfr
                 exact setMany_defined _ _ _ x (by simpa using hlen.symm) (paramFrame_key _ x n hm)
-            obtain ⟨G, env', ev, hm⟩ := hsim hinv hb he hc
+            obtain ⟨G, env', ev, hm⟩ := hsim (freeOf_paramFrame _ _ hattr) hinv hb he hc
             refine ⟨G, ?_⟩
             unfold evalGraph
             simp only [hlen, if_true, ev]
@@ -3033,15 +3151,16 @@ The graph may need more evaluation fuel than the Python run (one unit per nestin
 count), so the conclusion is for some fuel; by `evalNodes_mono` it then holds for every larger one. -/
 theorem convert_correct_for (S : Sem V) (hConst : ∀ l, ∃ c, constOf S l = some c)
     (hId : ∀ v, S.op "" "Identity" [some v] [] = some [v]) (hT : S.truth (S.ofBool true) = some true)
+    (hNat : ∀ k c, constOf S (.int k) = some c → S.natOf c = some k.toNat)
     (hNot : ∀ v bk, S.truth v = some bk → ∃ w, S.op "" "Not" [some v] [] = some [w] ∧ S.truth w = some (!bk))
     (hAnd : ∀ x y yb, S.truth y = some yb → ∃ w, S.op "" "And" [some x, some y] [] = some [w] ∧
       (yb = false → S.truth w = some false) ∧ (yb = true → S.truth w = S.truth x))
     {f : Func} {g : Graph}
-    (hil : forLine f.body = true) (hten : AllTensorParams f.params)
+    (hil : forLine f.body = true) (hattr : ∀ p, p ∈ attrParams f.params → p ∉ targetsBlock f.body)
     (hnames : (f.params.map Param.name).Nodup) (h : convert f = .ok g)
     {fuel : Nat} {args vs : List V} (he : evalFunc S fuel f args = some vs) :
     ∃ G, evalGraph S G g args = some vs :=
-  convert_correct_via S hten hnames h he
-    (fun hinv hb he' hc => convTop_for_sim S fuel hConst hId hT hNot hAnd f.body _ hil hinv hb he' hc)
+  convert_correct_via S hattr hnames h he
+    (fun hfree hinv hb he' hc => convTop_for_sim S fuel hConst hId hT hNat hNot hAnd f.body _ hil hfree hinv hb he' hc)
 
 end OV.C01
